@@ -46,36 +46,36 @@ def parseFieldLine (line : Bytes) : FieldRes :=
     | some n => if headerValueValid value then .field n value else .bad .headerValue
 
 /-- Header loop. `fuel` bounds the number of lines; see `headFuel`. -/
-def parseHeadersLoop : Nat → BufR → Nat → Headers → RR Headers × BufR
+def parseHeadersLoop (S : Src σ) : Nat → σ → Nat → Headers → RR Headers × σ
   | 0, r, _, _ => (.panic, r)                     -- fuel exhausted: unreachable (lemma)
   | fuel+1, r, maxHeaders, hs =>
-    match readLineStrict r Consts.maxLineLen with
+    match readLineStrict S r Consts.maxLineLen with
     | (.ok line, r') =>
       if line = [] then (.ok hs, r')
       else if hs.len = maxHeaders then (.err .header, r')
       else
         (match parseFieldLine line with
          | .bad e => (.err e, r')
-         | .skip => parseHeadersLoop fuel r' maxHeaders hs
+         | .skip => parseHeadersLoop S fuel r' maxHeaders hs
          | .field n v =>
            -- `try_append`: capacity error mapped to InvalidResponseKind::Header
            if Headers.full hs n then (.err .header, r')
-           else parseHeadersLoop fuel r' maxHeaders (hs.append n v))
+           else parseHeadersLoop S fuel r' maxHeaders (hs.append n v))
     | (.err e, r') => (.err e, r')
     | (.blocked, r') => (.blocked, r')
     | (.panic, r') => (.panic, r')
 
 /-- Every successful iteration consumes at least the two bytes of a CRLF. -/
-def headFuel (r : BufR) : Nat := r.flat.length + 2
+def headFuel (S : Src σ) (r : σ) : Nat := S.size r + 2
 
 /-- `parse_response_head`. -/
-def parseResponseHead (r : BufR) (maxHeaders : Nat) : RR (Nat × Headers) × BufR :=
-  match readLine r Consts.maxLineLen with
+def parseResponseHead (S : Src σ) (r : σ) (maxHeaders : Nat) : RR (Nat × Headers) × σ :=
+  match readLine S r Consts.maxLineLen with
   | (.ok line, r') =>
     (match parseStatusLine line with
      | .error e => (.err e, r')
      | .ok status =>
-       (match parseHeadersLoop (headFuel r') r' maxHeaders [] with
+       (match parseHeadersLoop S (headFuel S r') r' maxHeaders [] with
         | (.ok hs, r'') => (.ok (status, hs), r'')
         | (.err e, r'') => (.err e, r'')
         | (.blocked, r'') => (.blocked, r'')
